@@ -25,6 +25,13 @@ def generate(rng, tier):
                     for lorch in (False, True):
                         for omitted in (False, True):
                             c = F.gen_named_case(rng, "quick", direction, X, Y, lorch=lorch, omitted=omitted, channel=2)
+                            # every method sees uncertainties given (non-zero) and absent
+                            if lorch == omitted:
+                                c["dy"] = [rng.logu(1e-4, 0.5) for _ in c["xin"]]
+                                c["desc"]["dy"] = "pos"
+                            elif lorch:
+                                c["dy"] = None
+                                c["desc"]["dy"] = "none"
                             if lorch or omitted:
                                 # keep the low-x term away from its removable singularities (r = +-pi/Qmax) and Qmin > 0
                                 if c["xin"][0] == 0.0 and omitted:
